@@ -36,6 +36,11 @@
                                      SPqcd[i] = uint8(expn << 3))
      Decoder.decodeTiles             applyInverseTransforms (Components == 3 and COD MCT = 1),
                                      applyInverseDCLevelShift, GetPixelData
+   Not part of the composed functions (identities for a single tile, proved as C19_tile_roundtrip
+   with TW = W, TH = H): the copy loops of Encoder.transformTile for the tile (0, 0, W, H) and
+   TileAssembler.AssembleTile for the only tile.  On the encoder side all blocks of a component
+   are encoded before they are added to the packet encoder (Go interleaves the two; encoding a
+   block does not touch the store).
    Go `int` is Z; `/` on the (non-negative) operands here is Z.quot.  The wavelet model works
    over Z (no int32 wrap-around, as in DWT/DwtModel.v); `<<= 6` and `/= 2` are int32. *)
 From V Require Import Common.Base.
